@@ -21,8 +21,11 @@ the input syndrome; the zero syndrome yields the zero correction.
 """
 import traceback
 
+import json
+
 from mc import families as F
 from mc import gf2
+from mc import session
 
 PROPERTY = 'C05'
 LEVEL = 'exploration'
@@ -227,7 +230,29 @@ def cases(tier, seed):
     out.sort(key=lambda c: (c['n'], c['_turn'], c['decoder']))
     for c in out:
         del c['_turn']
-    return out
+    # sessions: decoders for several sizes / code deformations of one class built and used one after the
+    # other in ONE process (each judged exactly as when it runs alone)
+    groups = {}
+    for c in out:
+        if c.get('skip') or c.get('unknown_class') or 'uint8' not in c.get('dtypes', []) \
+                or 'reused-asc' not in c.get('modes', []):
+            continue
+        g = groups.setdefault((c['decoder'], c['cfg']['cls']), {})
+        k = (tuple(c['cfg']['size']), json.dumps(c['cfg']['deformation']))
+        if k not in g:
+            g[k] = dict(c, dtypes=['uint8'], modes=['reused-asc'], rates=c['rates'][:1],
+                        params_list=c['params_list'][:1])
+    sess = []
+    for (dname, cls), g in groups.items():
+        sizes = []
+        for (sz, _d) in g:
+            if sz not in sizes:
+                sizes.append(sz)
+        items = [c for (sz, _d), c in g.items() if sz in sizes[:2]]
+        if len(items) >= 2:
+            sess.append({'session': items + [items[0]], 'decoder': dname,
+                         'cfg': {'cls': cls, 'size': [], 'deformation': None}, 'n': items[0]['n']})
+    return out + sess
 
 
 # ------------------------------------------------------------------ syndrome space (reference)
@@ -346,6 +371,9 @@ def _judge(corr, n, H, s_int, complete):
 
 
 def eval_case(case):
+    if 'session' in case:
+        return session.run(case['session'], eval_case,
+                           lambda c: '%s on %s' % (c['decoder'], F.cfg_label(c['cfg'])))
     import numpy as np
     import panqec.config as pcfg
     from panqec.error_models import PauliErrorModel
